@@ -11,12 +11,13 @@ def rand_bytes(rng, maxlen):
     return [rng.choice(ALPHA) if rng.chance(1, 2) else rng.below(256) for _ in range(n)]
 
 
-def gen_case(rng, maxops, big):
+def gen_case(rng, maxops, big, mega=False):
     lines = [[0]]
     files = {}     # name -> exists as file (approximate bookkeeping, the model decides)
     dirs = set()
     opened = None
     cur = 0
+    large = set()     # names that may hold more than 16 KiB: not read in text mode (the model's text-mode scan is quadratic)
     for _ in range(rng.range(3, maxops)):
         if opened is None:
             k = rng.weighted([("open_w", 6), ("open_r", 6), ("mkdir", 1), ("symlink", 1), ("mkfile", 2), ("bad", 1)])
@@ -29,7 +30,16 @@ def gen_case(rng, maxops, big):
                 lines.append([32, n, rng.choice(sorted(dirs))]); dirs.add(n)
             elif k == "mkfile":
                 if n in dirs: continue
-                files[n] = True; lines.append([31, n] + rand_bytes(rng, 300))
+                files[n] = True
+                if rng.chance(1, 5):
+                    # generated contents of whole blocks and their neighbours (block-wise readers); megabytes only in the big cases
+                    base = rng.choice([4096, 8192, 65536, 131072] + ([1 << 20, 1 << 20, 1 << 21] if mega else []))
+                    lines.append([34, n, base + rng.choice([0, 0, 0, 1, -1, 17]), rng.below(251)])
+                    if base > 16384: large.add(n)
+                else:
+                    lines.append([31, n] + rand_bytes(rng, 300))
+                if rng.chance(1, 4):
+                    lines.append([35, n, rng.choice([1, 2, 3, 4, 5, 6])])     # a path below this regular file names nothing
             elif k == "open_w":
                 if rng.chance(1, 8) and dirs: n = rng.choice(sorted(dirs))
                 m = rng.choice([3, 4, 5, 6])
@@ -38,7 +48,7 @@ def gen_case(rng, maxops, big):
                     files[n] = True; opened = ("w", m); cur = n
             elif k == "open_r":
                 if rng.chance(1, 10) and dirs: n = rng.choice(sorted(dirs))
-                m = rng.choice([1, 2])
+                m = rng.choice([1, 2]) if n not in large else 2
                 lines.append([1, n, m])
                 if n in files and n not in dirs:
                     opened = ("r", m); cur = n
@@ -65,6 +75,7 @@ def gen_case(rng, maxops, big):
                 # and the old stream stays open)
                 n = cur if rng.chance(1, 2) else rng.below(4)
                 m2 = rng.choice([1, 2, 3, 4, 5, 6])
+                if n in large and m2 == 1: m2 = 2
                 lines.append([1, n, m2])
                 if n in dirs or (m2 <= 2 and n not in files):
                     pass
@@ -91,7 +102,7 @@ def gen_case(rng, maxops, big):
     # read everything back in both read modes
     for n in sorted(files):
         if n not in dirs:
-            for m in (2, 1):
+            for m in ((2, 1) if n not in large else (2,)):
                 lines += [[1, n, m], [9], [5 if m == 2 else 6], [8], [2]]
     return lines
 
@@ -127,7 +138,15 @@ class C17(Spec):
     trusted_extra = ("FileModel.v is a hand transcription of File.cpp plus a model of fopen/fread/fwrite/fgetc/feof/fseek/ftell",)
 
     def generate(self, rng, n, tier):
-        return [("mixed", gen_case(rng, rng.choice([10, 25, 50]), tier == "thorough" and rng.chance(1, 10))) for _ in range(n)]
+        # "big" cases: chunks up to 5000 bytes (thorough); "mega" cases: files of 1 MiB / 2 MiB (under 1% in thorough); the first
+        # case of every run reads back files of exactly 1 MiB and 2 MiB (and appends to one of them)
+        out = [("megabytes", [[0], [34, 0, 1 << 20, rng.below(251)], [1, 0, 2], [9], [5], [8], [2],
+                              [34, 1, 1 << 21, rng.below(251)], [1, 1, 2], [6], [2],
+                              [1, 0, 6], [3] + rand_bytes(rng, 300), [9], [2], [1, 0, 2], [9], [5], [2]])]
+        out += [("mixed", gen_case(rng, rng.choice([10, 25, 50]), tier == "thorough" and rng.chance(1, 10),
+                                   tier == "thorough" and rng.chance(1, 150)))
+                for i in range(n - 1)]
+        return out
 
     def nontrivial(self, lines):
         ops = [l.split()[0] for l in lines[1:] if l.split()]
@@ -135,7 +154,8 @@ class C17(Spec):
 
     def classify(self, lines):
         names = {"30": "mkdir", "31": "create file", "1": "open", "2": "close", "3": "write", "4": "read(buf)", "5": "read()",
-                 "6": "readStr()", "7": "seek", "8": "tell", "9": "size", "32": "symlink to a directory", "33": "switch to the other File user"}
+                 "6": "readStr()", "7": "seek", "8": "tell", "9": "size", "32": "symlink to a directory", "33": "switch to the other File user", "34": "create file (generated blocks)",
+                 "35": "open a path below a regular file"}
         tags = set()
         for l in lines[1:]:
             t = l.split()
